@@ -23,30 +23,36 @@ CHECK_CORR = 'check_corr'
 CHECK_SPEC = 'check_spec'
 SHARD = 120
 RULE = ('template trees over constant/function/table/point atoms, sequence, repetition, for-loop, mapping, atomic '
-        'multi-channel (with/without declared duration), atomic arithmetic, scalar arithmetic, time reversal; depth <= 3 '
-        '(quick) / 4 (thorough).  Stream "exact": time parameters are ints or TimeType built from a short decimal; '
-        'stream "float": the same decimals as Python floats with bare/literal leaf durations; arithmetic on floats is '
-        'generated too and counted as excluded_float_arith (not judged).  Repetition counts 0/1/small/1000/1e6, '
-        'negative, near-integer and non-integer; ranges empty/single/negative step/step not dividing the span/zero step; '
-        'tables with late first entry, unequal channel lengths, decreasing times; parallel parts with equal, different, '
-        'zero and almost-equal durations; missing parameters.  Range cases: ParametrizedRange.to_range exhaustively over '
-        'a small box.  Non-trivial = composite template (depth >= 2) or non-empty range; distinct = canonical JSON.')
+        'multi-channel (with/without declared duration), atomic arithmetic, scalar arithmetic, time reversal, parameter '
+        'constraints (satisfied / violated / float vs TimeType operands), sub-templates in to_single_waveform; depth <= 3 '
+        '(quick) / 4 (thorough).  Streams: "exact" (ints / TimeType from short decimals), "float" (the same decimals as '
+        'Python floats), "mixed" (both kinds in one template: tables, parallel parts, constraints, counts, range bounds: '
+        'the code compares binary values, converts by shortest decimal).  Harness-only decorations that must not change a '
+        'duration: measurement declarations, channel/measurement renaming at the root and in create_program, volatile '
+        'repetition counts.  Families: real ForLoopPT over the box start, stop in -4..4, step in +-{1,2,3} (exhaustive in '
+        'thorough, literal / parameter / mixed bounds, also rendered as one waveform), parameters of rejected types '
+        '(Fraction, mpq), no-accumulation (counts up to 7e9), ParametrizedRange.to_range over the same box.  Counts '
+        '0/1/small/1000/1e6, negative, near-integer, non-integer; ranges empty/single/negative step/non-dividing/zero '
+        'step; tables with late first entry, unequal channels, decreasing times; parallel parts equal/different/zero/'
+        'almost equal; missing parameters.  Non-trivial = composite template (depth >= 2) or non-empty range.')
 TRUSTED = [
     'Coq 8.16.1 kernel + vm_compute (no native_compute)',
-    'sympy (Sum/Piecewise/Max/ceiling construction, subs, lambdify) and numpy scalar arithmetic on int64/TimeType objects '
-    'are oracles: the model mirrors the written closed forms, their evaluation is compared case by case',
-    'gmpy2.mpq arithmetic is exact; TimeType.from_float(x) is the shortest decimal of x (property C14)',
-    'CPython repr(float) = shortest round-tripping decimal (the decimal value of every float input is supplied to the '
-    'model by the harness)',
+    'sympy (Sum/Piecewise/Max/ceiling construction, subs, doit) as the oracle for the exact value of a duration '
+    'expression: the model mirrors the written closed forms (Sum = unrolled sum), their evaluation is compared case by case',
+    'gmpy2.mpq arithmetic is exact, mpq/float comparisons are exact; TimeType.from_float(x) is the shortest decimal of x (C14)',
+    'CPython repr(float) = shortest round-tripping decimal (the binary and the decimal value of every float input are '
+    'supplied to the model by the harness)',
     'harness: generators, template construction from the JSON case, Gallina printers, exception -> error class mapping',
 ]
 ASSUMPTIONS = [
     'binary floating-point arithmetic is not modelled: a case in which a float takes part in arithmetic inside a '
     'duration, count or range expression is classified Inexact by the model from its inputs and is not judged',
     'rational literals 1/k are generated only for k in {2,4,8} (exact as Python floats) and k in {3,5} (not judged)',
-    'channel mappings, measurements, constraints, to_single_waveform and volatile parameters are not exercised here',
-    'isclose() of the implementation is modelled with exact rationals; generated durations stay away from the 1e-9 '
-    'relative boundary (equal, < 1e-12 apart, or > 1e-4 apart)',
+    'isclose() of the implementation (double arithmetic on float(a), float(b)) is modelled with exact rationals; generated '
+    'durations stay away from the 1e-9 relative boundary (equal, < 1e-12 apart, or > 1e-4 apart)',
+    'to_waveform raising on leaves with different channel sets is not modelled (known findings marked model_diverges); '
+    'duration.evaluate_in_scope (lambdified float evaluation) is judged by the Python-side oracle only',
+    'measurements, channel/measurement mappings and volatile counts are exercised but not modelled (the model ignores them)',
 ]
 
 TIME_DECIMALS = ['0.1', '0.2', '0.25', '0.5', '1', '1.5', '2', '2.5', '3', '0.125', '10', '0.3', '1.375', '7', '100.001',
@@ -563,6 +569,9 @@ def gen_for_case(a, b, s, variant):
                                             'body': {'t': 'const', 'd': var('t_1'), 'v': {'c00': 2}}}]}
     if variant % 2 == 0:
         bounds = [lit(a), lit(b), lit(s)]
+    elif variant % 3 == 1:
+        params.update({'r_a': tparam(a, 'int' if variant % 4 == 1 else 'time')})
+        bounds = [var('r_a'), lit(b), lit(s)]        # sympy distributes (b - r_a)/s: rational coefficients
     else:
         params.update({'r_a': tparam(a, 'int'), 'r_b': tparam(b, 'int' if variant % 3 else 'time'), 'r_s': tparam(s, 'int')})
         bounds = [var('r_a'), var('r_b'), var('r_s')]
@@ -1107,6 +1116,15 @@ def classify(case, obs):
     an input the implementation nevertheless accepted with contradicting numbers."""
     if case.get('kind') != 'tpl' or 'prog' not in obs:
         return None
+    if isinstance(py_spec(case, obs), str) and for_with_parameter_bound(case['tpl']):
+        # the numerically evaluated duration expression differs from its exact value, a for-loop with a bound that
+        # is not a literal takes part: step count computed with float coefficients
+        sp = c04_spec.spec(case)
+        pr = obs['prog']
+        prog_ok = pr is None or 'err' in pr or sp[0] != 'ok' or (F(pr['loop']) == sp[1] and F(pr['pieces']) == sp[1])
+        sym_ok = sp[0] != 'ok' or obs.get('sym') is None or F(obs['sym']) == sp[1]
+        if prog_ok and sym_ok:
+            return 'C04-forloop-stepcount-float'
     pr = obs['prog']
     if pr is not None and 'err' in pr:
         return None
@@ -1118,6 +1136,13 @@ def classify(case, obs):
     if sp[1] == 'non_integer' and not c04_spec.near_integer_input(case):
         return None
     return FINDING_OF_REASON.get(sp[1])
+
+
+def for_with_parameter_bound(t):
+    if t['t'] == 'for' and any('lit' not in t[k] for k in ('start', 'stop', 'step')):
+        return True
+    return any(for_with_parameter_bound(c) for c in t.get('subs', [])) or \
+        any(for_with_parameter_bound(t[key]) for key in ('body', 'lhs', 'rhs') if key in t)
 
 
 def has_func_in_parallel(t, inside=False):
@@ -1155,18 +1180,23 @@ def search_failing(ctx, broken):
 
 
 MANIFEST = {
-    'level_text': 'Proof (Coq, unbounded in tree shape, counts, ranges, parameters; all template kinds): whenever a template '
-                  'denotes a duration d (guard_C04), Loop.duration of the instantiated program, the duration of the '
-                  'program rendered as one waveform and the sum over the played pieces all equal d, an empty program '
-                  'means d = 0; range length/elements closed form for both step signs; n repetitions of a leaf last '
-                  'exactly n x the leaf.  The symbolic duration expression is proved equal to d only for templates '
-                  'without for-loop/table/atomic arithmetic (_partial); those cases are tested by the correspondence. '
-                  'Four input classes on which the unchanged code disagrees are refuted by witnesses and listed as known '
-                  'findings.',
-    'level_note': 'Trusted: Coq kernel, sympy/numpy evaluation of the closed forms (compared case by case, not proved), '
+    'level_text': 'Proof (Coq, unbounded in tree shape, counts, ranges, parameters; ALL template kinds incl. for-loop closed '
+                  'form, tables, atomic arithmetic, constraints, single-waveform rendering): (1) C04_symbolic_agrees: every '
+                  'class\'s duration expression evaluates to the denoted duration; (2) C04_program_views_agree: Loop.duration = '
+                  'single-waveform duration = sum of pieces = denoted duration, empty program <=> 0; (3) C04_agree: under the '
+                  'tight executable guard (binary and decimal reading of the code\'s comparisons build the same program, '
+                  'and none of the four modelled finding classes is met) the code accepts and all four views equal the '
+                  'symbolic duration, with no reference to the specification; C04_guard_exact: the guard excludes nothing '
+                  'else.  One refuting witness per class (negative count, negative duration, near-integer, unequal parallel '
+                  'parts, binary-vs-decimal reading).  Range closed form for both step signs; no accumulation.  Two further '
+                  'findings of the unchanged code are outside the model (to_waveform raising on a zero-length function '
+                  'leaf; float step count in ForLoopPT.duration.evaluate_in_scope) and are judged by the correspondence only.',
+    'level_note': 'Trusted: Coq kernel, sympy as the oracle for the exact value of the closed forms (compared case by case), '
                   'shortest-decimal float conversion (C14), harness.  Binary float arithmetic inside duration expressions '
-                  'is outside the property and not judged (counted as excluded_float_arith).',
-    'technique': 'Coq proof by induction over template/program trees + correspondence check (model and specification '
-                 'evaluated in coqc on the implementation\'s observations)',
+                  'is outside the property and not judged (counted as excluded_float_arith); isclose is modelled on exact '
+                  'rationals.',
+    'technique': 'Coq proof by induction over template/program trees (simulation between the code model and its guarded '
+                 'variant) + correspondence check (model and specification evaluated in coqc on the implementation\'s '
+                 'observations)',
     'design_ref': 'DESIGN.md §5 C04',
 }
